@@ -49,13 +49,33 @@ def conversations(ctx):
                     if ctx.quick() and (bi + ti + quit) % 2:
                         continue
                     convs.append((cmds + tail, scripts, lim, quit))
+    # multi-packet commands at a small packet limit (the stream may end exactly between two fragments, or
+    # after the last maximal fragment when the empty terminator is still owed)
+    for q in (b"x" * 13, b"y" * 15, b"z" * 20):
+        convs.append(([("query", cmd_query(q)), ("ping", cmd_ping())], ["q done 1 1"], 7, False))
+    convs.append(([("prepare", cmd_prepare(b"p" * 6)), ("query", cmd_query(b"after"))], ["p reply 1 0 0", "q done 0 0"], 7, True))
     return convs
 
 
-def variants(ctx, idx, cmds, scripts, lim, quit, base_obs):
-    """all single-fault variants of one conversation"""
-    out = []
-    nops = sum(1 for l in base_obs if l.startswith("w|") or l == "flush")
+def ops_of(obs):
+    """transport write / flush operations of a fault-free run: (kind, bytes written before it, flushes before it)"""
+    ops, off, nf = [], 0, 0
+    for l in obs:
+        if l.startswith("w|"):
+            ops.append(("w", off, nf)); off += (len(l) - 2) // 2
+        elif l == "flush":
+            ops.append(("f", off, nf)); nf += 1
+    return ops
+
+
+def variants(ctx, idx, cmds, scripts, lim, quit, base_obs, model_obs):
+    """all single-fault variants of one conversation.  Write / flush faults are addressed by operation index; the
+    model's twin run gets the index of ITS operation at the same byte offset (identical on the tree as verified; it
+    differs when the code cuts its output into transport writes differently).  An operation of the code with no
+    twin in the model is still run, against the specification oracle only."""
+    out, unpaired = [], []
+    impl_ops, model_ops = ops_of(base_obs), ops_of(model_obs)
+    nops = len(impl_ops)
     nreads = sum(1 for l in base_obs if l.startswith("read|"))
     def mk(tag):
         return mk_case("c19_%d_%s" % (idx, tag), cmds, scripts, lim=lim, quit=quit, chunks=[9])
@@ -63,7 +83,13 @@ def variants(ctx, idx, cmds, scripts, lim, quit, base_obs):
         for kind in ("once", "from"):
             c = mk("%s%d" % (kind, k)); c.fault = "%s:%d:%d" % (kind, k, 100 + k)
             c.meta["fault"] = ("write", kind, k)
-            out.append(c)
+            if impl_ops[k] in model_ops:
+                k2 = model_ops.index(impl_ops[k])
+                if k2 != k:
+                    c.mfault = "%s:%d:%d" % (kind, k2, 100 + k)
+                out.append(c)
+            else:
+                unpaired.append(c)
     base = mk("x")
     toks = base.reads
     for k in range(len(toks) + 1):
@@ -92,7 +118,7 @@ def variants(ctx, idx, cmds, scripts, lim, quit, base_obs):
         c.meta["fault"] = ("eof", k, k in cb and k >= hs_end)
         c.meta["quit_before"] = quit and k == len(stream)
         out.append(c)
-    return out
+    return out, unpaired
 
 
 def oracle(case, obs):
@@ -130,10 +156,14 @@ def run(ctx):
     convs = conversations(ctx)
     base_cases = [mk_case("c19b_%d" % i, cmds, scripts, lim=lim, quit=q, chunks=[9]) for i, (cmds, scripts, lim, q) in enumerate(convs)]
     io, mo = ctx.diff_conn(base_cases, tag="C19base", classify=lambda c, o: ["fault_free"])
-    allv = []
+    allv, unpaired = [], []
     for i, (cmds, scripts, lim, q) in enumerate(convs):
-        allv += variants(ctx, i, cmds, scripts, lim, q, io["c19b_%d" % i])
+        v, u = variants(ctx, i, cmds, scripts, lim, q, io["c19b_%d" % i], mo.get("c19b_%d" % i, []))
+        allv += v; unpaired += u
     ctx.corr["exhaustive"] = True
     ctx.diff_conn(allv, tag="C19", oracle=oracle,
                   classify=lambda c, o: ["%s_%s" % (c.meta["fault"][0], c.meta["fault"][1] if c.meta["fault"][0] != "eof" else ("boundary" if c.meta["fault"][2] else "inside")),
                                         "result_" + result_of(o).split(" ")[0]])
+    if unpaired:
+        ctx.corr["hist"]["fault_at_an_operation_the_model_does_not_have"] = len(unpaired)
+        ctx.impl_only(unpaired, oracle=oracle, tag="C19unpaired")
